@@ -3,10 +3,10 @@
 
 def spline_sy(rng, positive=True):
     n = rng.randint(4, 9)
-    z0 = rng.choice([-1000.0, -291.7, -50.0, 0.0, 120.5])
+    z0 = rng.choice([-1000.0, -291.7, -50.0, 0.0, 120.5, 24500.0])
     knots = [z0]
     for _ in range(n - 1):
-        knots.append(knots[-1] + rng.choice([1.0, 5.0, rng.uniform(1, 500), rng.uniform(10, 120)]))
+        knots.append(knots[-1] + rng.choice([1.0, 5.0, rng.uniform(1, 500), rng.uniform(10, 120), 0.2]))
     mode = rng.random()
     if mode < 0.2:
         vals = [rng.choice([0.1, 0.25, 0.5])] * n  # constant specific yield
@@ -19,10 +19,11 @@ def spline_sy(rng, positive=True):
 
 def spline_T(rng, z_lo=None):
     n = rng.randint(2, 7)
-    z0 = z_lo if z_lo is not None else rng.choice([-1000.0, -291.7, -50.0, 0.0])
+    z0 = z_lo if z_lo is not None else rng.choice([-1000.0, -291.7, -50.0, 0.0, 24500.0])
     knots = [z0]
     for _ in range(n - 1):
-        knots.append(knots[-1] + rng.choice([1.0, rng.uniform(1, 1000), rng.uniform(20, 200)]))
+        # also a sharp layer boundary written as two knots a fraction of a mm apart
+        knots.append(knots[-1] + rng.choice([1.0, rng.uniform(1, 1000), rng.uniform(20, 200), 0.2, 0.005]))
     mode = rng.random()
     if mode < 0.3:
         # narrow conductivity spike
